@@ -846,9 +846,11 @@ class Env:
     def p_Atomic__fetch_or(s, M, st, th, ci, a):
         old = s.tgt(M, st, a[0]).f[0]; M.write(st, a[0], Agg('Atomic', [binop('BitOr', old, a[1])])); return s.ret(st, old)
     def on_atomic_sub(s, M, st, th, ci, ref, old, n): pass
+    def p_Atomic__get_mut(s, M, st, th, ci, a): return s.ret(st, a[0].field(0))         # exclusive access: a plain &mut to the value
+    def p_Atomic__into_inner(s, M, st, th, ci, a): return s.ret(st, a[0].f[0])
     def d_Atomic(s, M, st, th, v): return True
     for _n in ('AtomicUsize', 'AtomicIsize', 'AtomicBool', 'AtomicU64'):
-        for _m in ('load', 'store', 'swap', 'fetch_add', 'fetch_sub', 'fetch_or'):
+        for _m in ('load', 'store', 'swap', 'fetch_add', 'fetch_sub', 'fetch_or', 'get_mut', 'into_inner'):
             locals()[f'p_{_n}__{_m}'] = locals()[f'p_Atomic__{_m}']
 
     # ======================================================= Vec / VecDeque
